@@ -35,9 +35,9 @@ RULE = (
     "into existing or new sections, keys with escaped dots, values int / list / mapping / empty / bool / string; rarely without '=' or through a "
     "scalar), layouts {no service at all, top-level component, 1-3 services with or without `default`}, --service and ASPHALT_SERVICE each in "
     "{unset, existing, unknown}, values tagged !Env / !TextFile / !BinaryFile. Tier A in-process (recorder), one case in 60 also Tier B in a "
+    "subprocess. "
     "Dotted keys next to a section named like their first part, mappings shared through YAML anchors/aliases, a `services` section that is not a mapping. "
-    "subprocess. Non-trivial: >= 2 files or >= 1 override and a services layout; distinct = canonical (files, overrides, service, env) tuple."
-)
+    "Non-trivial: >= 2 files or >= 1 override and a services layout; distinct = canonical (files, overrides, service, env) tuple.")
 DECIDING = {
     "tier_a_calls_compared": "in-process runs whose recorded run_application() arguments were compared with the model",
     "tier_a_failures_checked": "in-process runs that must fail (non-zero status, nothing started)",
